@@ -42,6 +42,7 @@ META = {
         "(level 0, and level 1 for the one-middleware stacks); each send's own event sequence must be a prefix of, and finally equal, "
         "the single-send reference; plain-valued attributes of the broker and of the shared kicker are part of the fingerprint. "
         "distinct_nontrivial = distinct reference sequences exercised."
+        " Fault-overlap family (mc/fault_overlap.py): message X suffers one fault out of {pre_execute/post_execute/post_save/on_error hook, sync or async ack, result backend} x {RuntimeError, CancelledError, TimeoutError}, backend failing once, body raise/CancelledError/timeout/no-result, malformed/unknown message, broker stream error, while the healthy message Y has suspension points before, inside and after its function and the stop request may arrive at any point; Y's hook sequence equals the reference whenever its processing ends (also after a broker stream error), X's for body outcomes and backend failures."
     ),
     "assumptions": [
         "hooks are recording TaskiqMiddleware subclasses generated per case; 'overridden' is what the class defines",
@@ -117,9 +118,9 @@ class C10World(RecvWorld):
         if ev[0] != "CB_E" or self.closed:
             return
         i = ev[1]
-        if self.msgs[i]["kind"] != "valid":
+        if self.msgs[i]["kind"] != "valid" or self.relaxed(i):
             return
-        got = [e for e in self.per[i] if e[0] not in ("TAKEN", "CB_B", "CB_E")]
+        got = [e for e in self.per[i] if e[0] not in ("TAKEN", "CB_B", "CB_E", "ACK_B", "ACK_E", "ACK_F")]
         got = [e if e[0] != "SAVE_B" else ("SAVE_B",) for e in got]
         ref = self.reference(i)
         self.checked += 1
@@ -323,8 +324,24 @@ def _per_send(sc: Dict[str, Any], res: Any, acc: Acc) -> None:
         acc.cap(f"concurrent-send scenario never had two sends in flight: {sc}")
 
 
+def fault_family(tier: str) -> List[Dict[str, Any]]:
+    """One fault in message X (hook / ack / backend / body / junk / broker stream error) while message Y is
+    suspended in a hook, in its function or in its ack, stop request at any point (mc/fault_overlap.py): Y's
+    hook sequence is the reference sequence whenever its processing ends; X's too for body outcomes and
+    backend failures (a raising hook or ack legitimately cuts X's own sequence short)."""
+    from mc import fault_overlap as fo
+
+    out = []
+    for a in ((3,) if tier == "quick" else (2, 3)):
+        for sc in fo.family(tier, a=a, orders=(True, False) if tier == "thorough" else (True,)):
+            k, d = sc["fault"]
+            sc["relax_x"] = k in ("hook", "ack", "junk") or (k == "save" and d == "cancel")
+            out.append(sc)
+    return out
+
+
 def shards(tier: str, seed: int) -> List[Any]:
-    return _shards(tier, seed) + [("sends", ss[i : i + 12]) for ss in [send_scenarios(tier)] for i in range(0, len(ss), 12)]
+    return [("worker", ff[i : i + 10]) for ff in [fault_family(tier)] for i in range(0, len(ff), 10)] + _shards(tier, seed) + [("sends", ss[i : i + 12]) for ss in [send_scenarios(tier)] for i in range(0, len(ss), 12)]
 
 
 def _shards(tier: str, seed: int) -> List[Any]:
